@@ -117,6 +117,22 @@ def launch_shared(label, workdir, in_file, seed, shared, iters):
     return {"label": label, "proc": p, "out": out, "hashseed": 0, "one_core": False, "delays": ("workers 2,3 start %ds late" % shared) if shared else None, "marks": marks}
 
 
+def launch_timing(label, workdir, in_file, seed, slow):
+    """One chain on a 512-point grid (between the sizes where either convolution back-end is clearly faster); `slow`
+    delays the first calls of one back-end routine without touching its results."""
+    out = os.path.join(workdir, label + ".pkl.gz")
+    e = dict(os.environ)
+    e.update(PYTHONHASHSEED="0", PHYCLONE_VERIF="1", NUMBA_CACHE_DIR=os.path.join(env.BUILD_DIR, "numba_cache"),
+             PYTHONPATH=os.pathsep.join([os.path.join(env.VERIF, "pcv", "sitecustom"), env.REPO]))
+    e.pop("PCV_CHAIN_DELAYS", None)
+    if slow:
+        e["PCV_SLOW_CALLS"] = slow
+    cmd = [sys.executable, "-c", "from phyclone.cli import main; main()", "run", "-i", in_file, "-o", out, "--seed", str(seed), "-n", "12", "-b", "2",
+           "--num-chains", "1", "--num-particles", "8", "--grid-size", "512", "--print-freq", "100000"]
+    p = subprocess.Popen(cmd, cwd=workdir, env=e, stdout=subprocess.PIPE, stderr=subprocess.STDOUT)
+    return {"label": label, "proc": p, "out": out, "hashseed": 0, "one_core": False, "delays": slow}
+
+
 def chain_pids(run):
     pids = {}
     for f in os.listdir(run["marks"]):
@@ -261,7 +277,10 @@ def run(corrupt=None):
     iters = 150
     grp_sh = [launch_shared("own_process_each", workdir, in_branch, 3, 0, iters), launch_shared("one_worker_runs_all", workdir, in_branch, 3, 80, iters)]
     loader_hashseeds(ck, workdir, thorough)
+    grp_t = [launch_timing("timing_direct_slow", workdir, in_file, seed + 3, "phyclone.tree.utils:_np_conv_dims:0.004:12"),
+             launch_timing("timing_fft_slow", workdir, in_file, seed + 3, "phyclone.tree.utils:fft_convolve_two_children:0.004:12")]
     assign_group = [collect(r) for r in grp]
+    timing_group = [collect(r) for r in grp_t]
     assign_single = [collect(r) for r in grp1]
     shared_group = [collect(r) for r in grp_sh]
     for r in shared_group:
@@ -275,7 +294,7 @@ def run(corrupt=None):
             grp = [launch("g%d_%s" % (gi, l), workdir, in_file, seed + 1 + gi, 3, extra=("--proposal", prop, "--outlier-prob", op), **kw)
                    for l, kw in (("h0", dict(hashseed=0)), ("h7_onecore", dict(hashseed=7, one_core=True)), ("h3_delayed", dict(hashseed=3, delays="0:7,1:3,2:0")))]
             extra_groups.append([collect(r) for r in grp])
-    for grp, what in [(runs, "2 chains")] + [(singles, "1 chain")] + [(assign_group, "2 chains, --assign-loss-prob"), (assign_single, "1 chain, --assign-loss-prob"), (shared_group, "3 chains, one worker process runs them all")] + [(g, "3 chains") for g in extra_groups]:
+    for grp, what in [(runs, "2 chains")] + [(singles, "1 chain")] + [(assign_group, "2 chains, --assign-loss-prob"), (assign_single, "1 chain, --assign-loss-prob"), (shared_group, "3 chains, one worker process runs them all"), (timing_group, "1 chain, 512-point grid, timing of the convolution routines perturbed")] + [(g, "3 chains") for g in extra_groups]:
         for r in grp:
             if r["rc"] != 0 or "chains" not in r:
                 raise RuntimeError("phyclone run failed in the harness (%s): %s" % (r["label"], r["stdout_tail"][-800:]))
@@ -286,6 +305,8 @@ def run(corrupt=None):
             pert = "hash seed %s -> %s%s%s" % (base["hashseed"], other["hashseed"], ", one core" if other["one_core"] else "", ", start delays" if other["delays"] else "")
             if "marks" in other:
                 pert = "each chain in its own worker process -> one worker process executes several chains"
+            if other["label"].startswith("timing_"):
+                pert = "first calls of the direct convolution routine slowed -> first calls of the FFT routine slowed"
             compare(ck, base, other, pert)
             ck.nontrivial("%s|%s" % (what, pert))
         orders = {tuple(r["order"]) for r in grp}
